@@ -76,6 +76,17 @@ CLAIMED = {
              'for Signomials only.',
         technique='Lean 4 proof (list algebra + Mathlib calculus) + model/implementation correspondence check',
         design_ref='DESIGN.md 4/C14'),
+    'C07': dict(
+        text='Theorems about a Lean model of the coniclifts compiler (epigraph substitution, per-atom epigraph rows, elementwise / '
+             'product-cone / dual-product-cone / pow / PSD rows, triplet assembly, variable map): per-atom epigraph lemmas over R, '
+             'dual-cone rows via exp_dual_iff, and compile_equiv (satisfying assignments = projections of the compiled system) under '
+             'the decidable curvature condition Convex; variable-map and dimension theorems. The model reads the serialised STATE of '
+             'real constraint objects built through the API and is compared exactly with compile_constrained_system (cols, A, b, K, '
+             'variable_map). Definition-vs-system sampling (closed-form aux values, ECOS only to confirm) finds failing inputs.',
+        note='Convex hypothesis forced by the proof: the excluded point is known finding F9 (nonconvex constraints silently relaxed, '
+             'curvature check off by default); pow/PSD cones are abstract predicates; float semantics in the oracle use margins.',
+        technique='Lean 4 proof (compiler-correctness style, Mathlib real analysis) + model/implementation correspondence check',
+        design_ref='DESIGN.md 4/C07'),
 }
 
 NOT_YET = 'check not built yet in this session (planned, see DESIGN.md section 6); not claimed until its theorems and correspondence exist'
